@@ -22,6 +22,7 @@ import (
 	"sync"
 
 	"github.com/aergoio/aergo-lib/db"
+	"github.com/aergoio/aergo/v2/contract/system"
 	"github.com/aergoio/aergo/v2/state/statedb"
 	"github.com/aergoio/aergo/v2/types/dbkey"
 )
@@ -403,6 +404,27 @@ func vCanonUnits(units []jUnit) []jUnit {
 			sort.Slice(ops, func(a, b int) bool { return ops[a].Key < ops[b].Key })
 			units[i].Ops = ops
 		}
+		// A state bulk (StateDB.Commit) stages the trie nodes by ranging over a Go map
+		// (trie CacheDB.updatedNodes) and the storages by ranging over another one: the order
+		// inside a run of trie nodes / of data entries is random from run to run.  All keys are
+		// content addressed and distinct, so the sets commute: sort inside every maximal run of
+		// ops of the same class (the state marker, staged last, stays last).
+		if units[i].Store == "state" && units[i].Kind == "bulk" && !all {
+			ops := append([]jOp{}, units[i].Ops...)
+			for a := 0; a < len(ops); {
+				b := a
+				for b < len(ops) && !ops[b].Del && !ops[a].Del && vClassState(ops[b].Key, ops[b].Val) == vClassState(ops[a].Key, ops[a].Val) {
+					b++
+				}
+				if b == a {
+					b = a + 1
+				}
+				run := ops[a:b]
+				sort.Slice(run, func(x, y int) bool { return run[x].Key < run[y].Key })
+				a = b
+			}
+			units[i].Ops = ops
+		}
 	}
 	return units
 }
@@ -483,9 +505,8 @@ func (e *vEngine) restart(x *vCtx, cm, sm map[string][]byte, rec map[string]inte
 }
 
 func (e *vEngine) afterStart(r *vNode, x *vCtx, rec map[string]interface{}) {
-	if x.c.OrphanCap >= 1 && x.c.OrphanCap <= 100 {
-		r.cs.op = NewOrphanPool(x.c.OrphanCap)
-	}
+	e.use(r)
+	e.configure(r, x)
 	if err := r.cs.Recover(); err != nil {
 		rec["recover_err"] = err.Error()
 	}
@@ -500,6 +521,17 @@ func (e *vEngine) afterStart(r *vNode, x *vCtx, rec map[string]interface{}) {
 	rec["pred"] = pred
 	rec["sdbroot"] = hx(r.cs.sdb.GetRoot())
 	rec["marker_after"] = len(r.cs.cdb.store.Get(dbkey.ReOrg())) != 0
+	rec["params"] = system.VerifParamsInMemory()
+}
+
+// probeRec files the probe result of node r (not used afterwards) into a crash record.
+func (e *vEngine) probeRec(r *vNode, x *vCtx, rec map[string]interface{}) {
+	pred, _ := rec["pred"].([]string)
+	e.doProbe(r, x, rec, &pred)
+	if pred == nil {
+		pred = []string{}
+	}
+	rec["pred"] = pred
 }
 
 // recrash: crash DURING the recovery of (cm, sm) (contents that hold a reorg marker).  The
@@ -520,9 +552,10 @@ func (e *vEngine) recrash(x *vCtx, cm, sm map[string][]byte, rec map[string]inte
 	}
 	r2 := map[string]interface{}{"recover_err": ""}
 	e.afterStart(n2, x, r2)
-	n2.stop()
 	units2 := vCanonUnits(j2.units[:len(j2.units):len(j2.units)])
 	d2c, d2s := cj.snapshot(), sj.snapshot()
+	e.probeRec(n2, x, r2) // after the journal and the dumps were taken
+	n2.stop()
 	rec["units2"] = vUnitsJSON(units2, x)
 	rec["recover2"] = r2
 	partial := "none"
@@ -545,6 +578,7 @@ func (e *vEngine) recrash(x *vCtx, cm, sm map[string][]byte, rec map[string]inte
 			if len(dc)+len(ds) > 0 {
 				rr["diff"] = map[string]interface{}{"chain": dc, "state": ds}
 			}
+			e.probeRec(r, x, rr)
 			r.stop()
 		}
 		os.RemoveAll(d)
@@ -673,6 +707,17 @@ func (e *vEngine) runCrash(x *vCtx, out map[string]interface{}) {
 		}
 		r.stop()
 		os.RemoveAll(dir)
+		if c.Probe != "none" {
+			// the probe changes the node: it is delivered to a second instance recovered from the same contents
+			tmp := map[string]interface{}{}
+			if pr, pd := e.restart(x, cm, sm, tmp, what+" (probe instance)"); pr != nil {
+				e.probeRec(pr, x, rec)
+				pr.stop()
+				os.RemoveAll(pd)
+			} else {
+				os.RemoveAll(pd)
+			}
+		}
 		if hadMarker && (c.Recrash == "units" || c.Recrash == "ops") {
 			e.recrash(x, cm, sm, rec, c.Recrash, what)
 			if l, ok := rec["recrash"].([]interface{}); ok {
